@@ -246,6 +246,21 @@ func vtC04Gen(r *rand.Rand, i int) (string, []int64) {
 		pgop(1*racy, 4, g, pgcfg[g])
 		pgop(2*racy, 5, g, vtC04GenCfg(r, G, perGang[g], gm(g)))
 		pgop(1*racy, 5, g, pgcfg[g])
+		{ // metadata-only PodGroup update: same spec.minMember, other group / mode / match policy annotations
+			c := pgcfg[g]
+			switch r.Intn(3) {
+			case 0:
+				c.mask = groupMask
+				if c.mask == pgcfg[g].mask {
+					c.mask = int64(r.Intn(1 << uint(G)))
+				}
+			case 1:
+				c.mode = 1 - (c.mode & 1)
+			default:
+				c.policy = int64(r.Intn(3))
+			}
+			pgop(1+2*racy, 5, g, c)
+		}
 		add(1*racy, 6, g, 0, 0, 0, 0)
 		if r.Intn(60) == 0 { // malformed: ids out of range, unknown op code
 			add(3*racy, int64(r.Intn(12)), int64(r.Intn(14))-1, 0, 0, 0, 0)
